@@ -61,9 +61,14 @@ class H5Group:
 
     def create_link(self, target, name):
         self._create_h5obj()
+        h5target = target._h5group.group
+        # HDF5 refuses a hard link to an object of another file: refuse it
+        # before the link that is being replaced is removed
+        if h5target.file != self.group.file:
+            raise ValueError("Cannot link to an object of another file")
         if name in self.group:
             del self.group[name]
-        self.group[name] = target._h5group.group
+        self.group[name] = h5target
 
     @classmethod
     def create_from_h5obj(cls, h5obj):
